@@ -400,7 +400,7 @@ class CppErrorDomain(CppBaseType):
     @property
     def header_includes(self) -> set[str]:
         includes = super().header_includes | {"<exception>", "<string>", "<utility>"}
-        if any(error_code.deprecated for error_code in self.decl.error_codes):
+        if self.decl.deprecated or any(error_code.deprecated for error_code in self.decl.error_codes):
             includes.add(quote(PurePosixPath("pydjinni/deprecated.hpp")))
         return includes
 
